@@ -43,6 +43,24 @@ type Fault struct {
 	Off      int  // bytes [0,Off) are delivered before the fault
 	Extra    int  // transient: bytes delivered after the first failure
 	WithData bool // the failing call also returns the bytes it had (n>0 together with err)
+	// Identity of the injected error: 0 a plain error (ErrSimIO), 1 io.ErrUnexpectedEOF (what a
+	// truncated gzip / HTTP body returns), 2 an error wrapping io.EOF.
+	ErrKind int
+}
+
+// ErrWrappedEOF is an injected non-EOF error that wraps io.EOF (errors.Is(err, io.EOF) is true,
+// err == io.EOF is not).
+var ErrWrappedEOF = fmt.Errorf("simulated connection reset: %w", io.EOF)
+
+// Err is the error value this fault injects.
+func (f Fault) Err() error {
+	switch f.ErrKind {
+	case 1:
+		return io.ErrUnexpectedEOF
+	case 2:
+		return ErrWrappedEOF
+	}
+	return ErrSimIO
 }
 
 func (f Fault) String() string {
@@ -55,6 +73,9 @@ func (f Fault) String() string {
 	}
 	if f.WithData {
 		s += " [error returned together with data]"
+	}
+	if f.ErrKind != 0 && f.Kind != FaultTruncate {
+		s += fmt.Sprintf(" [error value: %v]", f.Err())
 	}
 	return s
 }
@@ -101,6 +122,7 @@ func (p Plan) Sig() uint64 {
 		mix(7)
 	}
 	mix(uint64(p.Fault.Kind)<<40 | uint64(p.Fault.Off)<<8 | uint64(p.Fault.Extra))
+	mix(uint64(p.Fault.ErrKind) + 3)
 	if p.Fault.WithData {
 		mix(11)
 	}
@@ -192,14 +214,14 @@ func (r *Reader) faultNow() (err error, hit bool) {
 	switch f.Kind {
 	case FaultPersistent:
 		if r.pos >= f.Off {
-			return ErrSimIO, true
+			return f.Err(), true
 		}
 	case FaultTransient:
 		if !r.transientDone && r.pos >= f.Off {
-			return ErrSimIO, true
+			return f.Err(), true
 		}
 		if r.transientDone && r.pos >= f.Off+f.Extra {
-			return ErrSimIO, true
+			return f.Err(), true
 		}
 	case FaultTruncate:
 		if r.pos >= f.Off && f.Off < len(r.data) {
